@@ -56,6 +56,20 @@ PROFILES = {
                   "extern_types": {"ReplyOn": "ReplyOn", "TokenStream": "String"},
                   "extern_enum_fields": {"ReplyOn": {"Success": [], "Error": [], "Always": []}},
                   "extern_calls": {"crate_module": "()"}},
+    # remote handles of the runtime library (C10 / C20): `Remote` (constructors, executor(), admin helpers, its hand-written
+    # JsonSchema::schema_name), `ExecutorBuilder` (both states); PhantomData fields are dropped, an `Addr` is its string
+    "handles": {"src": ("sylvia", "src", "types.rs"), "out": "HandleFns.lean", "ns": "Extracted.Handles",
+                "imports": ["Sylvia.Model.RustSem", "Sylvia.Model.RustExtern", "Sylvia.Util.Bytes"], "opens": "open RustSem RustExtern",
+                "vars": "variable {Binary Coin : Type} [Inhabited Binary]", "str": "String",
+                "only": ["ExecutorBuilder.new_1", "ExecutorBuilder.new_3", "ExecutorBuilder.with_funds", "ExecutorBuilder.funds", "ExecutorBuilder.contract",
+                         "ExecutorBuilder.build", "Remote.new", "Remote.borrowed", "Remote.executor", "Remote.update_admin", "Remote.clear_admin"],
+                "only_structs": ["ExecutorBuilder", "Remote"], "only_enums": [], "trait_only": ["Remote.schema_name", "Remote.as_ref"],
+                "tparams": ["Binary", "Coin"], "skip_field_types": ["PhantomData"],
+                "extern_types": {"Addr": "String", "WasmMsg": "WasmMsg Binary Coin"}, "extern_generic": {"Cow": "Cow"},
+                "extern_enums": {"WasmMsg": ["Execute", "UpdateAdmin", "ClearAdmin"]},
+                "extern_enum_fields": {"Cow": {"Owned": ["_"], "Borrowed": ["_"]}},
+                "extern_calls": {"Binary::default": "(default : Binary)"},
+                "shape_of": ["Remote"], "trait_impls_of": ["Remote"]},
     # the bridge to chain-custom types (C11): `IntoMsg::into_msg` and `IntoResponse::into_response`, trait methods on cosmwasm_std's
     # SubMsg / Response (declared in Sylvia/Model/RustExtern.lean); arms compiled under `#[cfg(feature = "..")]` become
     # `if feat ".." then <arm> else <the wildcard arm>`, so the regenerated function is the code under every feature set at once
@@ -280,9 +294,16 @@ class FnTr:
             return self.args(e[1], lambda vs: k("[%s]" % ", ".join(vs)))
         if t == "struct":
             path, fields, rest_ = e[1], e[2], e[3]
-            if rest_ is not None:
-                raise Unsupported("struct update syntax in a literal")
+            owner_ = self.fn.get("owner")
+            sname_ = owner_ if path == ["Self"] else (path[0] if len(path) == 1 else None)
+            dropped = self.mod.skipped_fields.get(sname_, set()) if sname_ else set()
+            fields = [f for f in fields if f[0] not in dropped]
             names = [f[0] for f in fields]
+            if rest_ is not None:
+                if not (sname_ in self.mod.structs):
+                    raise Unsupported("struct update syntax on a foreign type")
+                return self.ex(rest_, lambda rv: self.args([f[1] for f in fields], lambda vs: k(
+                    "({ %s with %s } : %s)" % (rv, ", ".join("%s := %s" % (n, v) for n, v in zip(names, vs)), self.mod.struct_ty(sname_)))))
 
             def kf(vs):
                 owner = self.fn.get("owner")
@@ -343,6 +364,10 @@ class FnTr:
                 return self.ex(e[1], lambda r: k("(toLower %s)" % r))
             if name == "char_indices" and not e[3]:
                 return self.ex(e[1], lambda r: k("(charIndices %s)" % r))
+            if name == "to_string" and not e[3]:
+                return self.ex(e[1], lambda r: k("(toStr %s)" % r))
+            if name in ("to_owned", "clone") and not e[3]:
+                return self.ex(e[1], k)
             if name in ("into_iter", "iter") and not e[3]:
                 return self.ex(e[1], k)      # a Vec / slice iterated in order: the list itself
             if name in ("any", "all") and len(e[3]) == 1 and e[3][0][0] == "closure" and len(e[3][0][1]) == 1:
@@ -467,8 +492,21 @@ class FnTr:
             return self.args(argl, lambda vs: k("(cmp_str %s %s)" % tuple(vs)))
         if p == ["konst", "eq_str"]:
             return self.args(argl, lambda vs: k("(%s == %s)" % tuple(vs)))
+        if len(p) > 2 and p[-2] in self.mod.enums and p[0] in ("std", "cosmwasm_std"):
+            p = p[-2:]
         if len(p) == 2 and p[0] in self.mod.enums:
             return self.args(argl, lambda vs: k("(%s.%s %s)" % (p[0], p[1], " ".join(vs))))
+        if len(p) == 2 and p[0] in self.mod.structs:
+            callee = "%s.%s" % (p[0], p[1])
+            if callee in self.mod.overloaded:
+                callee = "%s_%d" % (callee, len(argl))
+            if callee in self.mod.fns:
+                self.mod.calls.setdefault(self.name, set()).add(callee)
+
+                def kc2(vs):
+                    v = hint or self.fresh()
+                    return ["(%s).bind fun %s =>" % (self.mod.call_text(callee, self, vs), v)] + k(v)
+                return self.args(argl, kc2)
         if len(p) == 1 and p[0] in self.mod.fns:
             callee = p[0]
             self.mod.calls.setdefault(self.name, set()).add(callee)
@@ -756,6 +794,15 @@ class ModTr:
     def __init__(self, ast, profile=None):
         self.profile = profile or PROFILES["utils"]
         tonly = self.profile.get("trait_only", [])
+        counts = {}
+        for m in ast.get("methods", []):
+            counts[m["owner"] + "." + m["name"]] = counts.get(m["owner"] + "." + m["name"], 0) + 1
+        for m in ast.get("methods", []):
+            # a name defined in several impl blocks of one type (different type-state parameters) is told apart by its arity
+            if counts[m["owner"] + "." + m["name"]] > 1:
+                m["name"] = "%s_%d" % (m["name"], len(m["params"]))
+        self.overloaded = {k for k, v in counts.items() if v > 1}
+        self.raw_ast = ast
         if self.profile.get("only") is not None and (self.profile["only"] or tonly):
             only = self.profile["only"]
             ast = dict(ast, fns=[f for f in ast["fns"] if f["name"] in only],
@@ -768,7 +815,13 @@ class ModTr:
         else:
             missing = []
         self.missing = missing
-        self.structs = {st["name"]: st for st in ast.get("structs", [])}
+        skip = self.profile.get("skip_field_types", [])
+        self.structs = {}
+        self.skipped_fields = {}
+        for st in ast.get("structs", []):
+            keep = [f for f in st["fields"] if not (f[1][0] in ("tapp", "tpath") and f[1][1][-1] in skip)]
+            self.skipped_fields[st["name"]] = {f[0] for f in st["fields"]} - {f[0] for f in keep}
+            self.structs[st["name"]] = dict(st, fields=keep)
         self.enums = {}
         for en in ast["enums"]:
             self.enums[en["name"]] = {}
@@ -789,6 +842,8 @@ class ModTr:
             ret = ["tpath", [m["owner"]]] if m["ret"] == ["tpath", ["Self"]] else m["ret"]
             params = [[pp, (["tpath", [m["owner"]]] if tt in (["tpath", ["Self"]], ["ref", ["tpath", ["Self"]]]) else tt)] for pp, tt in params]
             name = m["owner"] + "." + m["name"]
+            if m["owner"] in self.structs and m["name"] in [f[0] for f in self.structs[m["owner"]]["fields"]]:
+                name += "_m"        # a getter named like the field it reads (Lean keeps `S.f` for the projection)
             self.fns[name] = {"name": name, "generics": [], "params": params, "ret": ret, "body": m["body"], "owner": m["owner"]}
             if m["attrs"]:
                 self.method_notes[name] = m["attrs"]
@@ -838,6 +893,8 @@ class ModTr:
                 return "Option %s" % FnTr.paren_ty(self.ty(t[2][0]))
             if name == "Vec" and len(t[2]) == 1:
                 return "List %s" % FnTr.paren_ty(self.ty(t[2][0]))
+            if name in getattr(self, "structs", {}):
+                return self.struct_ty(name)
             if name in self.profile.get("extern_generic", {}) and len(t[2]) == 1:
                 return "%s %s" % (self.profile["extern_generic"][name], FnTr.paren_ty(self.ty(t[2][0])))
             raise Unsupported("type constructor %s" % name)
@@ -847,7 +904,7 @@ class ModTr:
                 return "Nat"
             if p == ["bool"]:
                 return "Bool"
-            if p == ["str"] or p == ["String"]:
+            if p == ["str"] or p == ["String"] or p == ["std", "string", "String"]:
                 return self.profile["str"]
             if p == ["char"]:
                 return "Ch"
@@ -855,8 +912,8 @@ class ModTr:
                 return "Nat"
             if len(p) == 1 and p[0] in self.profile.get("tparams", []) + self.profile.get("type_vars", []):
                 return p[0]
-            if len(p) == 1 and p[0] in self.profile.get("extern_types", {}):
-                return self.profile["extern_types"][p[0]]
+            if p[-1] in self.profile.get("extern_types", {}) and (len(p) == 1 or p[0] in ("cosmwasm_std", "std")):
+                return self.profile["extern_types"][p[-1]]
             if len(p) == 1 and p[0] in getattr(self, "structs", {}):
                 return self.struct_ty(p[0])
             if len(p) == 1 and p[0] in self.enums:
@@ -874,6 +931,10 @@ class ModTr:
                     direct.add(f)
                 if len(n) == 3 and n[0] == "call" and n[1][0] == "path" and len(n[1][1]) == 1 and n[1][1][0] in self.fns:
                     calls.setdefault(f, set()).add(n[1][1][0])
+                if len(n) == 3 and n[0] == "call" and n[1][0] == "path" and len(n[1][1]) == 2:
+                    for cand in ("%s.%s" % tuple(n[1][1]), "%s.%s_%d" % (n[1][1][0], n[1][1][1], len(n[2]))):
+                        if cand in self.fns and cand != f:
+                            calls.setdefault(f, set()).add(cand)
                 if len(n) >= 4 and n[0] == "mcall" and isinstance(n[2], str):
                     cands = [m for m in self.fns if "." in m and m.split(".")[-1] == n[2]]
                     if len(cands) == 1 and cands[0] != f:
@@ -971,6 +1032,33 @@ class ModTr:
                 out += lines
             except Unsupported as e:
                 self.problems.append("struct %s: unsupported: %s" % (name, e))
+        for sname in pr.get("shape_of", []):
+            st = next((s_ for s_ in self.raw_ast.get("structs", []) if s_["name"] == sname), None)
+            if st is None:
+                self.problems.append("struct %s not found" % sname)
+                continue
+            derives = []
+            other = []
+            for a_ in st.get("attrs", []):
+                a2 = a_.replace(" ", "")
+                if a2.startswith("derive(") and a2.endswith(")"):
+                    derives += [x for x in a2[7:-1].split(",") if x]
+                else:
+                    other.append(a2)
+            lit = lambda s_: "bytes! %s" % lean_str(s_)
+            out += ["/-- the derive list, the other attributes and the (field, attributes) pairs of `struct %s` as written in the source -/" % sname,
+                    "def %s.derives : List (List Nat) := [%s]" % (sname, ", ".join(lit(x) for x in derives)),
+                    "def %s.structAttrs : List (List Nat) := [%s]" % (sname, ", ".join(lit(x) for x in other)),
+                    "def %s.fieldAttrs : List (List Nat × List (List Nat)) := [%s]" % (
+                        sname, ", ".join("(%s, [%s])" % (lit(f[0]), ", ".join(lit(x.replace(" ", "")) for x in (f[2] if len(f) > 2 else []))) for f in st["fields"])), ""]
+        for sname in pr.get("trait_impls_of", []):
+            impls = {}
+            for tm in self.raw_ast.get("trait_methods", []):
+                if tm["owner"] == sname:
+                    impls[tm["trait"]] = tm.get("impl_fns", [])
+            out += ["/-- the hand-written trait impls of `%s` and the functions each defines -/" % sname,
+                    "def %s.traitImpls : List (List Nat × List (List Nat)) := [%s]" % (
+                        sname, ", ".join("(bytes! %s, [%s])" % (lean_str(tr), ", ".join("bytes! %s" % lean_str(x) for x in fs)) for tr, fs in sorted(impls.items()))), ""]
         out += ["section", pr["vars"], ""]
         for name in order:
             try:
